@@ -24,9 +24,18 @@ import (
 
 func init() {
 	registerObserver([]string{"C22"}, func(s *Sim) Observer { return newAssetObs(s) })
-	nontrivialFor["C22"] = func(s *Sim) bool {
-		return s.stats["c22.assets_with_2_holders_checked"] > 0 && s.stats["c22.poison_rejected"] > 0
+	propBias["C22"] = "assets"
+	kindRemap["assets"] = func(g *Gen, kind int) int {
+		if g.n(2) == 0 {
+			return 28 + g.n(36) // the asset kinds of Gen.one()
+		}
+		return kind
 	}
+}
+
+// Nontrivial implements NontrivialJudge.
+func (o *assetObs) Nontrivial(s *Sim) bool {
+	return s.stats["c22.assets_with_2_holders_checked"] > 0 && s.stats["c22.poison_rejected"] > 0
 }
 
 var assetPoisonKinds = []string{
